@@ -61,6 +61,10 @@ def shapes_for(config):
         row = list(dict(shapes)["ok1"])
         row[config["fields"].index("name")] = "a\r\n"
         shapes.append(("ok1-name-ends-in-crlf", row))
+        # characters that str.splitlines() takes for line boundaries but delimited data does not (form feed, line separator)
+        row = list(dict(shapes).get("ok2", dict(shapes)["ok0"]))
+        row[config["fields"].index("name")] = "a\x0c\u2028"
+        shapes.append(("ok2-name-with-form-feed-and-line-separator", row))
     return [s for s in shapes if s[0] != "empty"] + [("empty", [])]
 
 
